@@ -101,14 +101,14 @@ fn helper_port(cfg: &Config, dev: Dev, candidates: &[u16]) -> Option<u16> {
 fn port_in(e: &mut Emu, port: u16) -> Result<u8, String> {
     let r = RegFile { pc: STUB, sp: 0xBF00, bc: port, ..Default::default() };
     mach::set_regs(e, &r);
-    mach::single_step(e)?;
+    mach::step_over(e, 2)?;
     Ok((mach::get_regs(e).af >> 8) as u8)
 }
 
 fn port_out(e: &mut Emu, port: u16, val: u8) -> Result<(), String> {
     let r = RegFile { pc: STUB + 2, sp: 0xBF00, bc: port, af: (val as u16) << 8, ..Default::default() };
     mach::set_regs(e, &r);
-    mach::single_step(e)
+    mach::step_over(e, 2)
 }
 
 fn mk_rig(cfg: &Config) -> Result<Rig, String> {
